@@ -10,7 +10,7 @@ import shutil
 import sys
 import tempfile
 
-REPO = os.environ.get("VF_REPO", "/repo")
+REPO = os.environ.get("VF_REPO") or "/repo"  # an empty value means "not set"
 SRC = os.path.join(REPO, "src")
 
 _setup_done = False
